@@ -14,6 +14,8 @@ def mk_stacks(rng, ns, dll='j1939-21', lat0=True):
         return cid[0]
     for i in range(ns):
         sd = dict(dll=dll, max_cmdt=rng.choice(WINDOWS + [rng.randint(1, 255)]), subs=[], cas=[])
+        if rng.random() < 0.15:
+            sd['cmdt_iv'] = rng.choice([0.002, 0.005, 0.01])      # a minimum interval between the data packets of a window
         own = []
         for k in range(rng.choice([1, 1, 2])):
             a = rng.choice([x for x in list(range(0, 254)) if x not in used])
@@ -63,8 +65,8 @@ def gen_transfers(rng, big=False, ns=None, dll='j1939-21', lats=None, sizefn=siz
             kind = 'p2p'
             cands = [a for (j, a) in all_addr if j != i]
             da = rng.choice(cands) if (cands and rng.random() < 0.92) else rng.choice([x for x in range(254) if x != sa])
-        if (sa, da) in pairs:
-            continue
+        if (sa, da) in pairs and not (kind == 'bam' and rng.random() < 0.4):
+            continue            # (a second broadcast of the same source while one is under way is legitimate to ATTEMPT: refused)
         pairs.add((sa, da))
         n = sizefn(rng, big)
         if kind == 'bam':
@@ -83,7 +85,7 @@ def gen_transfers(rng, big=False, ns=None, dll='j1939-21', lats=None, sizefn=siz
         t = t0 + rng.choice([0, 0, 1, 300, 2000, 20000])
         script.append(dict(t=t, s=i, op='send', a=[dp, pf, ps, prio, sa, dict(seed=rng.getrandbits(30), len=n)]))
         npk = (n + 6) // 7
-        dur = npk * 60000 + 3_000_000 if kind == 'bam' else npk * 12000 + 3_000_000
+        dur = npk * 60000 + 3_000_000 if kind == 'bam' else npk * 24000 + 3_000_000
         horizon = max(horizon, t + dur)
         if rng.random() < reuse:
             # a second message on the same pair after the first has finished
@@ -143,7 +145,7 @@ def gen_transfers22(rng, big=False, ntr=None, capacity=False):
         t = t0 + rng.choice([0, 0, 1, 300, 2000, 20000])
         script.append(dict(t=t, s=i, op='send', a=[rng.choice([0, 0, 1]), pf, ps, rng.randint(0, 7), sa, dict(seed=rng.getrandbits(30), len=sz)]))
         nseg = (sz + 59) // 60
-        dur = nseg * 12000 + 4_500_000
+        dur = nseg * 24000 + 4_500_000
         horizon = max(horizon, t + dur)
     app_timers(rng, script, ns)
     script.sort(key=lambda e: e['t'])
